@@ -241,17 +241,7 @@ async fn check_answer(cx: &mut Ctx<'_>, scenario: &str, node: &ServerHandle, mem
         cx.viol(scenario, what.clone(), format!("x-qe-rows is {:?}, the engine returned {} rows", resp.header("x-qe-rows"), cells.len()));
         return;
     }
-    let mut names: Vec<String> = reference.schema.fields().iter().map(|f| f.name().clone()).collect();
-    if dist == Some(true) {
-        // the body must encode what THIS execution returned; the distributed final statement names a qualified output
-        // column by its bare name (d.name -> name). That difference between the two execution modes is not this
-        // property's subject: names are compared without the qualifier, and the difference is counted.
-        let bare: Vec<String> = names.iter().map(|n| n.rsplit('.').next().unwrap_or(n).to_string()).collect();
-        if bare != names {
-            cx.o.count("distributed_answer_drops_column_qualifier", 1);
-            names = bare;
-        }
-    }
+    let names: Vec<String> = reference.schema.fields().iter().map(|f| f.name().clone()).collect();
     let bad = match format {
         "" | "arrow" => match decode_ipc_stream(&resp.body) {
             Err(e) => Some(format!("Arrow body does not decode: {e}")),
